@@ -40,7 +40,7 @@ LEAN = {"module": "Pygom.Props.C09", "extra_modules": ["Pygom.Lemmas.Params"],
                      "Pygom.C09.pairs_unmentioned_binds_zero", "Pygom.C09.legacy_rejected_dict_leaks_counterexample",
                      "Pygom.C09.legacy_time_symbol_commits_counterexample", "Pygom.C09.history_binding_legacy_counterexample",
                      "Pygom.C09.copies_bind_by_name", "Pygom.C09.restore_preserves_abs", "Pygom.C09.setstate_rebuild_counterexample",
-                     "Pygom.C09.early_exit_input_order_counterexample",
+                     "Pygom.C09.early_exit_input_order_counterexample", "Pygom.C09.early_exit_close_values_counterexample",
                      "Pygom.Params.unrollPure_get", "Pygom.Params.lv_dset", "Pygom.Params.Inv_dset", "Pygom.Params.lv_foldl_dset"]}
 BUDGET = {"quick": {"models": 900, "malformed": 600, "coincide": 300, "scale": 400, "max_ops": 8},
           "thorough": {"models": 12000, "malformed": 8000, "coincide": 4000, "scale": 6000, "max_ops": 20}}
